@@ -1,0 +1,71 @@
+// Copyright 2017-2021 Lei Ni (nilei81@gmail.com) and other contributors.
+//
+// Licensed under the Apache License, Version 2.0 (the "License");
+// you may not use this file except in compliance with the License.
+// You may obtain a copy of the License at
+//
+//     http://www.apache.org/licenses/LICENSE-2.0
+//
+// Unless required by applicable law or agreed to in writing, software
+// distributed under the License is distributed on an "AS IS" BASIS,
+// WITHOUT WARRANTIES OR CONDITIONS OF ANY KIND, either express or implied.
+// See the License for the specific language governing permissions and
+// limitations under the License.
+
+//go:build verif
+
+package transport
+
+import (
+	"net"
+
+	"github.com/lni/dragonboat/v4/raftio"
+)
+
+// This file only exists under the verif build tag; it exposes the TCP frame
+// reader/writer of tcp.go to external runtime monitors. Add-only, no change
+// of behaviour.
+
+const (
+	// VerifRequestHeaderSize is the size of the encoded request header.
+	VerifRequestHeaderSize = requestHeaderSize
+	// VerifRaftType is the method value of message batch frames.
+	VerifRaftType = raftType
+	// VerifSnapshotType is the method value of snapshot chunk frames.
+	VerifSnapshotType = snapshotType
+)
+
+// VerifMagicNumber is the magic number that precedes each frame.
+var VerifMagicNumber = magicNumber
+
+// VerifRecvBufSize is the receive buffer size used by readMessage.
+var VerifRecvBufSize = recvBufSize
+
+// VerifServeConn runs the receive loop of the TCP transport on the specified
+// connection, it returns when the loop returns.
+func VerifServeConn(t raftio.ITransport, conn net.Conn) {
+	t.(*TCP).serveConn(conn)
+}
+
+// VerifWriteMessage exposes writeMessage.
+func VerifWriteMessage(conn net.Conn,
+	method uint16, buf []byte, encrypted bool) error {
+	return writeMessage(conn, requestHeader{method: method},
+		buf, make([]byte, requestHeaderSize), encrypted)
+}
+
+// VerifReadFrame reads one frame, magic number first, using readMagicNumber
+// and readMessage.
+func VerifReadFrame(conn net.Conn,
+	rbuf []byte, encrypted bool) (uint16, []byte, error) {
+	magicNum := make([]byte, len(magicNumber))
+	if err := readMagicNumber(conn, magicNum); err != nil {
+		return 0, nil, err
+	}
+	header := make([]byte, requestHeaderSize)
+	rheader, buf, err := readMessage(conn, header, rbuf, encrypted)
+	if err != nil {
+		return 0, nil, err
+	}
+	return rheader.method, buf, nil
+}
